@@ -1,30 +1,69 @@
 """C13 — applying a tree transform is all-or-nothing on the file system.
 
 Mechanism: breezy/transform.py:_FileMover (rename journal, rollback, deferred
-deletions) and the phase structure of InventoryTreeTransform.apply /
+deletions), the phase structure of InventoryTreeTransform.apply /
 GitTreeTransform.apply (removals, insertions, rollback on any exception,
-metadata update, apply_deletions).
+metadata update, apply_deletions) and the in-place mode change of the
+insertion phase (_apply_insertions -> _set_executability -> chmod).
+
+Model (Model/C13.lean): POSIX directory = association list path -> node, a
+regular file carries its owner-executable bit; `rename` follows the Linux
+order of checks (both parents, source, ancestor checks, target, kind rules);
+`chmod`; the mover journal holds renames and - in the code variant `jc` -
+mode changes; `rollback` undoes it newest-first, stops at the first failing
+undo and returns the partially restored state; `applyF` has fault points at
+every operation of the removal/insertion phases, at every undo step of the
+rollback, at the metadata update and at every deletion.
 
 T1: the relative order of "discard replaced content" (mover.apply_deletions)
     and "update the versioning metadata" (apply_inventory_delta /
-    _apply_index_changes) is read from the source of both apply() methods and
-    written to Generated/C13.lean; Props/C13T1.lean proves it is
-    `metadataFirst`, the hypothesis of theorem `metadata_agrees`.
-T2: real transforms (revert between two random tree states, with local edits
-    and backups on/off; bzr 2a and git trees) are run with a fault-injecting
-    _FileMover: for every mover call index k (rename / pre_delete) and every
-    deletion index j the real run is compared with the Lean model
-    (`apply order fs ops fault1 fault2`) on: exception kind, file-system
-    snapshot after rollback / after the failed deletion / after success (limbo
-    and pending-deletion areas included), old/new metadata, and the model's
-    noClobber flag against the run-time observation that no executed rename
-    found its target present.
+    _apply_index_changes) is read from the source of both apply() methods; the
+    code variant `jc` (is the mode change of _set_executability undone by a
+    failed apply?) is determined by a probe of the real code (one hand-built
+    transform per format).  Both go to Generated/C13.lean; Props/C13T1.lean
+    proves the order is `metadataFirst` (hypothesis of `metadata_agrees`) and
+    `source_rollback_{bzr,git}`: the rollback guarantee that holds for the
+    variant found (exact restoration, or restoration up to executable bits).
+T2: (a) real transforms - revert (half of the scenarios), merge of a diverged
+    branch (conflict files), update to an older revision, shelve and unshelve,
+    between random tree states with renames, swaps, moves, kind changes,
+    deletions, additions and executable-bit flips, bzr 2a and git trees, plus
+    three hand-made executable-bit scenarios - are run with a fault-injecting
+    _FileMover / _set_executability: for EVERY operation index k (rename,
+    pre_delete, chmod) and every deletion index j the real run is compared
+    with the Lean model on: exception kind, file-system snapshot after
+    rollback / after the failed deletion / after success (limbo and
+    pending-deletion areas and executable bits included), old/new metadata,
+    and the model's noClobber / noModeChange flags against the run-time
+    observation.  Also compared (outside the property's quantifier, tie only):
+    a second fault inside rollback (partial rollback), a fault in the metadata
+    update, and "sabotage" runs in which the directory is changed behind the
+    transform's back just before the first mover call (source removed, file /
+    empty dir / full dir put at a target, parent replaced by a file) so that
+    the real os.rename calls fail or silently clobber by themselves: these
+    exercise the model's errno branches, the ENOENT swallow, noClobber=false
+    and natural failures.
+    (b) the file-system model itself: `rename` against the real os.rename and
+    `chmod` against the real _set_executability on random small directories
+    (every errno branch, replacement, directory over empty directory, self
+    rename, ancestors).
 Oracle: after a fault in the removal/insertion phases the directory snapshot
-    equals the snapshot taken before the first mover call, the visible tree
-    equals the tree before the command and the versioned paths are the old ones
-    and all exist with their kind; after a fault while discarding content the
-    visible tree is the transformed one and the versioned paths are the new
-    ones.
+    (names, kinds, contents, link targets, executable bits) equals the
+    snapshot taken before the first mover call, the visible tree equals the
+    tree before the command and the versioned paths are the old ones and all
+    exist with their kind; after a fault while discarding content the visible
+    tree is the transformed one and the versioned paths are the new ones; a
+    failed content creation leaves nothing behind; a natural failure with no
+    clobbering rename restores the directory.  A mode difference confined to
+    files that only ever lived in the limbo area is counted, not reported
+    (finalize discards them).
+
+Finding (unchanged /repo, family `execbit-not-rolled-back`): the chmod of
+_set_executability is not journalled, so a failure later in the insertion
+phase rolls the renames back but leaves the new mode.  Model: jc = false,
+theorems execbit_witness / rollback_restores_modulo_exec; repro and tested
+patch in /var/tmp/imp-C13C14/ (with the patch the probe finds jc = true and
+rollback_restores applies).
 
 Mutants this was built against (scratch worktrees): apply_deletions before
 the metadata update (the defect fixed by the fix: commit); rollback not
@@ -34,7 +73,10 @@ when the fault is a real OSError from os.rename, hence the "os" fault mode);
 pre_delete not journalled (os.rename directly); rollback swallowing
 OSError; `except BaseException` -> `except Exception` around the phases
 (faults are injected as BaseException half of the time); _apply_removals
-sorted ascending; ENOENT swallowed for pre_delete as well.
+sorted ascending; ENOENT swallowed for pre_delete as well.  On top of the
+journalled-chmod patch: journalled modes undone after all renames instead of
+interleaved; off-by-one in the interleaving (`>=` -> `>`); old mode recorded
+after the chmod; chmod journalled but never undone (= the finding).
 """
 import errno
 import os
@@ -44,20 +86,33 @@ import sys
 from vlib import env
 
 THEOREMS = [
-    "moveL_inverse", "rename_undo", "rollback_snoc", "rollback_invariant", "rollback_restores",
-    "apply_phase12_failure_restores", "get_runDeletions", "metadata_agrees",
-    "deletions_first_witness", "clobber_witness", "finalize_discards_limbo",
+    "moveL_inverse", "rename_undo", "chmod_undo", "rollback_snoc", "step_rollback", "rollback_invariant",
+    "rollback_restores", "rollback_restores_partial", "rollback_restores_modulo_exec",
+    "apply_phase12_failure_restores", "get_runDeletions", "metadata_agrees", "metadata_agrees_modulo_exec",
+    "deletions_first_witness", "clobber_witness", "execbit_witness", "metadata_fault_outcome",
+    "rollback_fault_resumable", "rollback_fault_witness", "finalize_discards_limbo",
 ]
-T1_THEOREMS = ["apply_order_bzr", "apply_order_git"]
-RULE = ("scenario = (format, random tree state A, random edits -> state B, local edits, backups flag); "
-        "case = (scenario, fault index in mover calls | fault index in deletions | no fault); all fault "
-        "indices of every scenario are enumerated; non-trivial = the transform performs >= 2 mover calls; "
-        "distinct by (op list, snapshot, fault)")
+T1_THEOREMS = ["apply_order_bzr", "apply_order_git", "source_rollback_bzr", "source_rollback_git"]
+RULE = ("scenario = (format, command revert|merge|update|shelve|unshelve, random tree state A, random edits -> "
+        "state B incl. executable-bit flips, local edits, backups flag) + 3 hand-made executable-bit scenarios per "
+        "format; case = (scenario, fault index in the operations rename/pre_delete/chmod | fault index in deletions | "
+        "mover fault + undo fault | metadata fault | sabotage kind and path | creation fault | no fault); all "
+        "operation and deletion fault indices of every scenario are enumerated; file-system stream case = (random "
+        "small directory, rename a b | chmod p x); non-trivial = the transform performs >= 2 operations; distinct "
+        "by (op list, snapshot, fault)")
 ASSUMPTIONS = [
-    "os.rename is atomic and follows the POSIX rules modelled in Model/C13.lean (checked per case by comparing snapshots)",
-    "faults are exceptions raised by the mover before the k-th rename / the j-th delete_any; torn single renames are not modelled",
+    "os.rename is atomic and follows the Linux rules modelled in Model/C13.lean (compared with the real os.rename on "
+    "random small directories and per transform case by comparing snapshots)",
+    "faults are exceptions raised before the k-th rename / chmod / the j-th delete_any (Exception, BaseException and "
+    "real OSError from os.rename); torn single renames are not modelled",
+    "the executable bit is the owner bit (st_mode & 0o100) of regular files; group/other bits, directory modes and "
+    "chmod through a symlink are not modelled (a chmod of a non-regular file would be reported as a tie break)",
 ]
-TRUSTED = ["the POSIX rename/rmtree model of Model/C13.lean; a crash (no rollback code runs at all) is out of scope of this property"]
+TRUSTED = ["the POSIX rename/chmod/rmtree model of Model/C13.lean (tied by the file-system streams); a crash (no "
+           "rollback code runs at all) is out of scope of this property",
+           "noClobber / noModeChange are hypotheses of the restoration theorems; they are evaluated by the model on "
+           "the operation list of every real run and compared with the run-time observation, not proved for "
+           "well-formed transforms"]
 
 
 class Injected(Exception):
@@ -79,9 +134,10 @@ def _enc_path(rel):
 
 def snapshot(root, ctl):
     """{relpath: (kind, data)} of the visible tree plus the limbo and
-    pending-deletion areas under the control directory `ctl`."""
+    pending-deletion areas under the control directory `ctl`; kind is d, l, f
+    (regular file) or x (regular file, owner-executable)."""
     snap = {".": ("d", "-")}
-    ctl_top = ctl.split("/")[0]
+    ctl_top = ctl.split("/")[0] if ctl else None
 
     def walk(rel):
         full = os.path.join(root, rel) if rel else root
@@ -100,9 +156,12 @@ def snapshot(root, ctl):
             walk(r)
         else:
             with open(p, "rb") as f:
-                snap[r] = ("f", f.read().hex() or "-")
+                # "x" = regular file with the owner-executable bit
+                snap[r] = ("x" if os.lstat(p).st_mode & 0o100 else "f", f.read().hex() or "-")
 
     walk("")
+    if not ctl:
+        return snap
     # control chain
     parts = ctl.split("/")
     for i in range(1, len(parts) + 1):
@@ -131,9 +190,18 @@ def visible(snap, ctl):
 # fault-injecting mover
 
 class Plan:
-    def __init__(self, root, ctl, fault1=None, fault2=None, base=False, fault3=None, after=False):
+    def __init__(self, root, ctl, fault1=None, fault2=None, base=False, fault3=None, after=False,
+                 fault_undo=None, fault_meta=False, sabotage=None):
         self.root, self.ctl = root, ctl
         self.fault1, self.fault2 = fault1, fault2
+        self.fault_undo = fault_undo       # fault at the j-th undo step inside rollback
+        self.fault_meta = fault_meta       # fault in the metadata update
+        self.sabotage = sabotage           # (kind, relpath): change the directory just before the first mover call
+        self.sabotaged = None
+        self.unmodelled = []               # chmod of something that is not a regular file
+        self.del_error = None              # errno of a delete_any that failed by itself
+        self.wt = None
+        self.md_at_apply = None            # versioned paths (in memory) when apply_deletions returned / raised
         self.fault3, self.after3 = fault3, after   # fault at the k-th content creation (before / after it)
         self.ncreate = 0
         self.exc = InjectedBase if base else Injected
@@ -145,7 +213,7 @@ class Plan:
             self.exc = Injected
         self.injected = False
         self.n = 0
-        self.log = []          # (kind, relfrom, relto, target_existed, error-or-None)
+        self.log = []          # (kind r|p|c, relfrom, relto | T/F, target_existed | bit changed, error-or-None)
         self.before = None
         self.after = None      # snapshot after rollback / failed deletion / success
         self.where = None      # 'rollback' | 'deletion' | 'done'
@@ -177,6 +245,8 @@ def _install():
             P = _plan
             P.movers += 1
             if P.before is None:
+                if P.sabotage is not None:
+                    P.sabotaged = _sabotage(P.root, *P.sabotage)
                 P.before = snapshot(P.root, P.ctl)
             self._kind = "r"
 
@@ -223,12 +293,30 @@ def _install():
 
         def rollback(self):
             P = _plan
+            import breezy.osutils as bo
+            real_rename, real_chmod = os.rename, bo.chmod_if_possible
+            cnt = [0]
+
+            def counting(real):
+                def f(*a_, **kw_):
+                    j = cnt[0]
+                    cnt[0] += 1
+                    if j == P.fault_undo:
+                        raise OSError(errno.EIO, "injected I/O error in rollback")
+                    return real(*a_, **kw_)
+                return f
+            if P.fault_undo is not None:
+                # every undo step of the journal is one os.rename (or, with a
+                # journalled mode change, one chmod_if_possible)
+                os.rename = counting(real_rename)
+                bo.chmod_if_possible = counting(real_chmod)
             try:
                 super().rollback()
             except BaseException as e:
                 P.rollback_error = repr(e)
                 raise
             finally:
+                os.rename, bo.chmod_if_possible = real_rename, real_chmod
                 P.after = snapshot(P.root, P.ctl)
                 P.where = "rollback"
 
@@ -242,7 +330,11 @@ def _install():
                 cnt[0] += 1
                 if j == P.fault2:
                     raise P.exc("injected at deletion %d" % j)
-                return real(path)
+                try:
+                    return real(path)
+                except OSError as e:
+                    P.del_error = _errno_name(e)
+                    raise
             P.ndel = len(self.pending_deletions)
             bt.delete_any = counting
             try:
@@ -254,10 +346,58 @@ def _install():
             finally:
                 bt.delete_any = real
                 P.after = snapshot(P.root, P.ctl)
+                try:
+                    P.md_at_apply = {p: P.wt.stored_kind(p) for p in P.wt.all_versioned_paths()}
+                except Exception as e:
+                    P.md_at_apply = {"<error>": repr(e)}
 
     bt._FileMover = FaultyMover
     bbt._FileMover = FaultyMover
     bgt._FileMover = FaultyMover
+    # the in-place mode change of the insertion phase: an operation of the same
+    # sequence as the mover calls (same fault index space)
+    for mod in (bbt, bgt):
+        for cls in {c for c in vars(mod).values() if isinstance(c, type) and "_set_executability" in vars(c)}:
+            real = cls._set_executability
+            if getattr(real, "_verif_wrapped", False):
+                continue
+
+            def make_x(real):
+                def wrapper(self, path, trans_id, *a, **kw):
+                    P = _plan
+                    if P is None or not self._tree._supports_executable():
+                        return real(self, path, trans_id, *a, **kw)
+                    k = P.n
+                    P.n += 1
+                    want = bool(self._new_executability[trans_id])
+                    rel = os.path.relpath(self._tree.abspath(path), P.root)
+                    if k == P.fault1:
+                        P.injected = True
+                        if P.os_fault:
+                            raise OSError(errno.EIO, "injected I/O error", path)
+                        raise P.exc("injected at operation %d (_set_executability)" % k)
+                    full = os.path.join(P.root, rel)
+                    changed = False
+                    try:
+                        st = os.lstat(full)
+                        import stat as _stat
+                        if not _stat.S_ISREG(st.st_mode):
+                            P.unmodelled.append(rel)
+                        changed = bool(st.st_mode & 0o100) != want
+                    except OSError:
+                        pass
+                    try:
+                        r = real(self, path, trans_id, *a, **kw)
+                    except BaseException as e:
+                        en = getattr(e, "errno", None)
+                        P.log.append(("c", rel, "T" if want else "F", changed,
+                                      "%s:%s" % (type(e).__name__, errno.errorcode.get(en, ""))))
+                        raise
+                    P.log.append(("c", rel, "T" if want else "F", changed, None))
+                    return r
+                wrapper._verif_wrapped = True
+                return wrapper
+            cls._set_executability = make_x(real)
     # content creation in limbo while a transform is being built
     for mod in (bbt, bgt):
         cls = mod.DiskTreeTransform
@@ -284,6 +424,39 @@ def _install():
             setattr(cls, name, make(real))
 
 
+def _sabotage(root, kind, rel):
+    """a change made to the directory by "somebody else" after the transform was
+    built and checked, just before the first mover call: makes the real
+    os.rename calls fail or clobber on their own (no injected exception)"""
+    full = os.path.join(root, rel)
+    try:
+        if kind == "rm":
+            if os.path.isdir(full) and not os.path.islink(full):
+                shutil.rmtree(full)
+            else:
+                os.unlink(full)
+        elif kind == "file":
+            with open(full, "w") as f:
+                f.write("obstacle\n")
+        elif kind == "dir":
+            os.mkdir(full)
+        elif kind == "fulldir":
+            os.mkdir(full)
+            with open(os.path.join(full, "o"), "w") as f:
+                f.write("obstacle\n")
+        elif kind == "parentfile":
+            # replace the parent directory of rel by a regular file
+            par = os.path.dirname(full)
+            shutil.rmtree(par)
+            with open(par, "w") as f:
+                f.write("not a directory\n")
+        else:
+            return None
+    except OSError as e:
+        return "failed:%s" % errno.errorcode.get(e.errno, e.errno)
+    return "done"
+
+
 # --------------------------------------------------------------------------
 # scenarios
 
@@ -307,6 +480,8 @@ def _rand_state(rng, root, depth=0, prefix=""):
         else:
             with open(full, "w") as f:
                 f.write("%s-%d\n" % (rel, rng.randint(0, 3)))
+            if rng.random() < 0.35:
+                os.chmod(full, 0o755)
             made.append(rel)
     return made
 
@@ -319,7 +494,7 @@ def _mutate(rng, wt, nops):
         with wt.lock_read():
             paths = sorted(p for p in wt.all_versioned_paths() if p)
         dirs = [""] + [p for p in paths if os.path.isdir(os.path.join(root, p)) and not os.path.islink(os.path.join(root, p))]
-        op = rng.choice(["rename", "rename", "move", "remove", "modify", "add", "swap", "kind"])
+        op = rng.choice(["rename", "rename", "move", "remove", "modify", "add", "swap", "kind", "chmod", "chmod"])
         try:
             if op in ("rename", "move") and paths:
                 src = rng.choice(paths)
@@ -350,6 +525,14 @@ def _mutate(rng, wt, nops):
                     with open(os.path.join(root, p), "a") as f:
                         f.write("mod%d\n" % rng.randint(0, 9))
                     done.append(("mod", p))
+            elif op == "chmod":
+                # flip the executable bit of a versioned file (an in-place chmod when reverted)
+                files = [p for p in paths if os.path.isfile(os.path.join(root, p)) and not os.path.islink(os.path.join(root, p))]
+                if files:
+                    p = rng.choice(files)
+                    full = os.path.join(root, p)
+                    os.chmod(full, 0o644 if os.stat(full).st_mode & 0o100 else 0o755)
+                    done.append(("chmod", p))
             elif op == "add":
                 d = rng.choice(dirs)
                 dst = (d + "/" if d else "") + rng.choice(NAMES + ["e", "f"])
@@ -385,28 +568,122 @@ def _mutate(rng, wt, nops):
     return done
 
 
+COMMANDS = ["revert", "merge", "update", "shelve", "unshelve"]
+
+# hand-made scenarios, run first on every run: (name, what revision B does to A = {a, z, d/})
+HAND = {
+    # an in-place mode change (a sorts first) followed by a rename
+    "execbit-then-rename": [("chmod", "a"), ("mv", "z", "zz")],
+    # the file whose mode changes is also moved
+    "execbit-of-moved-file": [("chmod", "a"), ("mv", "a", "d/a"), ("mv", "z", "zz")],
+    # mode change below a renamed directory
+    "execbit-below-renamed-dir": [("chmod", "d/f"), ("mv", "d", "e"), ("mv", "z", "zz")],
+}
+
+
+def _hand_scenario(wt, seed_tuple):
+    root, fmt, name = wt.basedir, seed_tuple[1], seed_tuple[2]
+    os.mkdir(os.path.join(root, "d"))
+    for rel, mode in (("a", 0o644), ("z", 0o644), ("d/f", 0o755)):
+        with open(os.path.join(root, rel), "w") as f:
+            f.write(rel + "\n")
+        os.chmod(os.path.join(root, rel), mode)
+    wt.smart_add([root])
+    rev1 = wt.commit("A")
+    for op in HAND[name]:
+        if op[0] == "chmod":
+            full = os.path.join(root, op[1])
+            os.chmod(full, 0o644 if os.stat(full).st_mode & 0o100 else 0o755)
+        else:
+            wt.rename_one(op[1], op[2])
+    wt.commit("B")
+    return dict(base=root, fmt=fmt, ctl=".bzr/checkout" if fmt != "git" else ".git", cmd="revert", rev1=rev1,
+                backups=False, edits=[list(o) for o in HAND[name]], local=[], seed=list(seed_tuple), other=None,
+                shelf_id=None)
+
+
 def build_scenario(seed_tuple):
-    """-> dict(base=dir, fmt, ctl, rev1, backups, local)"""
+    """-> dict(base=dir, fmt, ctl, cmd, rev1, backups, local, ...); seed_tuple =
+    (seed, format, index[, command])"""
     import random
-    rng = random.Random(repr(seed_tuple))
+    rng = random.Random(repr(tuple(seed_tuple[:3])))
     fmt = seed_tuple[1]
+    cmd = seed_tuple[3] if len(seed_tuple) > 3 else "revert"
     wt = env.make_tree(fmt)
     root = wt.basedir
+    if seed_tuple[0] == "hand":
+        return _hand_scenario(wt, seed_tuple)
     _rand_state(rng, root)
     wt.smart_add([root])
     rev1 = wt.commit("A")
+    other = None
+    if cmd == "merge":
+        # a second branch that diverges from A: merging it in creates, renames,
+        # deletes and (on conflicts) adds .THIS/.OTHER/.BASE/.moved files
+        other = env.fresh_dir("c13o")
+        os.rmdir(other)
+        owt = wt.controldir.sprout(other, revision_id=rev1).open_workingtree()
+        _mutate(rng, owt, rng.randint(2, 5))
+        owt.commit("O")
     edits = _mutate(rng, wt, rng.randint(2, 6))
     wt.commit("B")
-    local = _mutate(rng, wt, rng.randint(0, 2))     # uncommitted local edits (backups!)
+    local = _mutate(rng, wt, rng.randint(1, 3) if cmd in ("shelve", "unshelve") else rng.randint(0, 2))
     # an unversioned file that may be in the way of a restored path
     if rng.random() < 0.3:
         p = os.path.join(root, rng.choice(NAMES))
         if not os.path.lexists(p):
             with open(p, "w") as f:
                 f.write("unversioned\n")
+    shelf_id = None
+    if cmd == "unshelve":
+        from breezy.shelf import ShelfCreator
+        with wt.lock_tree_write():
+            creator = ShelfCreator(wt, wt.basis_tree())
+            try:
+                if not creator.shelve_all():
+                    raise ValueError("nothing to shelve")
+                shelf_id = wt.get_shelf_manager().shelve_changes(creator, "c13")
+            finally:
+                creator.finalize()
+        # more local edits, so that unshelving has to merge
+        local += _mutate(rng, wt, rng.randint(0, 2))
     ctl = ".bzr/checkout" if fmt != "git" else ".git"
-    return dict(base=root, fmt=fmt, ctl=ctl, rev1=rev1, backups=rng.random() < 0.5,
-                edits=edits, local=local, seed=list(seed_tuple))
+    return dict(base=root, fmt=fmt, ctl=ctl, cmd=cmd, rev1=rev1, backups=rng.random() < 0.5,
+                edits=edits, local=local, seed=list(seed_tuple), other=other, shelf_id=shelf_id)
+
+
+def _do_command(wt, sc):
+    cmd = sc.get("cmd", "revert")
+    if cmd == "revert":
+        with wt.lock_tree_write():
+            old = wt.branch.repository.revision_tree(sc["rev1"])
+            wt.revert(old_tree=old, backups=sc["backups"])
+    elif cmd == "merge":
+        from breezy.branch import Branch
+        with wt.lock_write():
+            wt.merge_from_branch(Branch.open(sc["other"]), force=True)
+    elif cmd == "update":
+        wt.update(revision=sc["rev1"])
+    elif cmd == "shelve":
+        from breezy.shelf import ShelfCreator
+        with wt.lock_tree_write():
+            creator = ShelfCreator(wt, wt.basis_tree())
+            try:
+                if not creator.shelve_all():
+                    raise ValueError("nothing to shelve")
+                wt.get_shelf_manager().shelve_changes(creator, "c13")
+            finally:
+                creator.finalize()
+    elif cmd == "unshelve":
+        with wt.lock_tree_write():
+            unshelver = wt.get_shelf_manager().get_unshelver(sc["shelf_id"])
+            try:
+                merger = unshelver.make_merger()
+                merger.do_merge()
+            finally:
+                unshelver.finalize()
+    else:
+        raise ValueError(cmd)
 
 
 def versioned(root):
@@ -423,22 +700,35 @@ def versioned(root):
     return out
 
 
-def run_command(sc, fault1=None, fault2=None, base_exc=False, fault3=None, after3=False):
-    """copy the scenario tree, run `revert -r1` with the given faults"""
+def run_command(sc, fault1=None, fault2=None, base_exc=False, fault3=None, after3=False,
+                fault_undo=None, fault_meta=False, sabotage=None):
+    """copy the scenario tree, run the scenario's command with the given faults"""
     global _plan
     from breezy.workingtree import WorkingTree
     copy = env.fresh_dir("c13")
     os.rmdir(copy)
     shutil.copytree(sc["base"], copy, symlinks=True)
-    _plan = P = Plan(copy, sc["ctl"], fault1, fault2, base_exc, fault3, after3)
+    _plan = P = Plan(copy, sc["ctl"], fault1, fault2, base_exc, fault3, after3,
+                     fault_undo=fault_undo, fault_meta=fault_meta, sabotage=sabotage)
     wt = WorkingTree.open(copy)
+    P.wt = wt
+    if fault_meta:
+        # the metadata update of apply(): apply_inventory_delta (bzr) / _apply_index_changes (git)
+        def failing_meta(*a, **kw):
+            P.injected = True
+            P.after = snapshot(copy, sc["ctl"])
+            P.where = "metadata"
+            raise P.exc("injected in the metadata update")
+        if sc["fmt"] == "git":
+            wt._apply_index_changes = failing_meta
+        else:
+            wt.apply_inventory_delta = failing_meta
     pre_visible = visible(snapshot(copy, sc["ctl"]), sc["ctl"])
     pre_versioned = versioned(copy)
+    bad_pre = disk_agrees(copy, pre_versioned)
     raised = None
     try:
-        with wt.lock_tree_write():
-            old = wt.branch.repository.revision_tree(sc["rev1"])
-            wt.revert(old_tree=old, backups=sc["backups"])
+        _do_command(wt, sc)
     except BaseException as e:
         # the injected fault may be masked by a cleanup error raised while it
         # propagates (ImmortalPendingDeletion from finalize): look down the chain
@@ -451,6 +741,9 @@ def run_command(sc, fault1=None, fault2=None, base_exc=False, fault3=None, after
             if P.os_fault and P.injected and type(c).__name__ == "TransformRenameFailed" and getattr(c, "errno", None) == errno.EIO:
                 raised = "INJECTED"
                 break
+            if P.os_fault and P.injected and type(c) is OSError and c.errno == errno.EIO:
+                raised = "INJECTED"
+                break
             c = c.__context__
         if raised in ("KeyboardInterrupt", "SystemExit"):
             raise
@@ -461,7 +754,7 @@ def run_command(sc, fault1=None, fault2=None, base_exc=False, fault3=None, after
     except Exception as e:
         post_versioned = {"<error>": repr(e)}
     _plan = None
-    res = dict(plan=P, raised=raised, pre_visible=pre_visible, pre_versioned=pre_versioned,
+    res = dict(plan=P, raised=raised, pre_visible=pre_visible, pre_versioned=pre_versioned, bad_pre=bad_pre,
                post=post, post_visible=visible(post, sc["ctl"]), post_versioned=post_versioned, root=copy)
     return res
 
@@ -485,46 +778,132 @@ def ops_of(log):
 
 
 def enc_ops(ops):
-    return ";".join("%s:%s:%s" % (k, _enc_path(a), _enc_path(b)) for k, a, b in ops) or "-"
+    return ";".join("%s:%s:%s" % (k, _enc_path(a), b if k == "c" else _enc_path(b)) for k, a, b in ops) or "-"
 
 
 # --------------------------------------------------------------------------
+# T1: order of the two calls (source) and the "is the mode change journalled?" probe
 
 def source_order(path, meta_call):
+    """order of the metadata update and mover.apply_deletions() in apply(), read
+    from the control flow: both must be unconditional top-level statements of
+    the method body, each called exactly once, and both must come after the
+    statement that holds `try: removals; insertions / except BaseException:
+    mover.rollback(); raise`"""
     import ast
     sys.path.insert(0, os.path.join(env.VERIF, "tools"))
     import extract as ex
     tree = ast.parse(open(path).read())
     found = None
+
+    def calls(node, attr):
+        return [n for n in ast.walk(node) if isinstance(n, ast.Call) and isinstance(n.func, ast.Attribute)
+                and n.func.attr == attr]
+
+    def top(fn, attr):
+        return [i for i, st in enumerate(fn.body) if isinstance(st, ast.Expr) and isinstance(st.value, ast.Call)
+                and isinstance(st.value.func, ast.Attribute) and st.value.func.attr == attr]
     for cls in [n for n in tree.body if isinstance(n, ast.ClassDef)]:
         for fn in [n for n in cls.body if isinstance(n, ast.FunctionDef) and n.name == "apply"]:
-            dele = [n.lineno for n in ast.walk(fn) if isinstance(n, ast.Call)
-                    and isinstance(n.func, ast.Attribute) and n.func.attr == "apply_deletions"]
-            meta = [n.lineno for n in ast.walk(fn) if isinstance(n, ast.Call)
-                    and isinstance(n.func, ast.Attribute) and n.func.attr == meta_call]
-            if dele and meta:
-                if len(dele) != 1 or len(meta) != 1:
-                    raise ex.ExtractError("apply() in %s has an unexpected shape" % path)
-                found = "metadataFirst" if meta[0] < dele[0] else "deletionsFirst"
+            if not (calls(fn, "apply_deletions") and calls(fn, meta_call)):
+                continue
+            dele, meta = top(fn, "apply_deletions"), top(fn, meta_call)
+            if len(dele) != 1 or len(meta) != 1 or len(calls(fn, "apply_deletions")) != 1 or len(calls(fn, meta_call)) != 1:
+                raise ex.ExtractError("apply() in %s: apply_deletions / %s are not single unconditional top-level "
+                                      "statements" % (path, meta_call))
+            guard = None
+            for i, st in enumerate(fn.body):
+                for t in [n for n in ast.walk(st) if isinstance(n, ast.Try)]:
+                    for h in t.handlers:
+                        if (isinstance(h.type, ast.Name) and h.type.id == "BaseException" and calls(h, "rollback")
+                                and isinstance(h.body[-1], ast.Raise) and calls(t, "_apply_removals")
+                                and calls(t, "_apply_insertions")
+                                and not any(calls(x, "_apply_removals") for x in t.handlers + t.finalbody + t.orelse)):
+                            guard = i
+            if guard is None or not (guard < dele[0] and guard < meta[0]):
+                raise ex.ExtractError("apply() in %s: no try/except BaseException: rollback(); raise around the "
+                                      "removal and insertion phases before the metadata update" % path)
+            found = "metadataFirst" if meta[0] < dele[0] else "deletionsFirst"
     if found is None:
         raise ex.ExtractError("no apply() calling apply_deletions and %s in %s" % (meta_call, path))
     return found
 
 
+class _ProbeStop(Exception):
+    pass
+
+
+def probe_chmod_journal(fmt):
+    """Does a failed apply() undo the mode change made by _set_executability?
+    One hand-built transform on the real code: set the executable bit of the
+    existing file `a` and create `zz`; the mover fails when `zz` is renamed into
+    place (after the chmod of `a`).  True = the old mode is back after rollback."""
+    global _plan
+    import breezy.transform as bt
+    saved, _plan = _plan, None
+    try:
+        wt = env.make_tree(fmt)
+        root = wt.basedir
+        with open(os.path.join(root, "a"), "w") as f:
+            f.write("a\n")
+        os.chmod(os.path.join(root, "a"), 0o644)
+        wt.smart_add([root])
+        wt.commit("probe")
+        orig = getattr(bt, "_verif_orig_FileMover", None) or bt._FileMover
+        seen = []
+
+        class M(orig):
+            def rename(self, a, b):
+                if os.path.basename(b) == "zz":
+                    seen.append(os.stat(os.path.join(root, "a")).st_mode & 0o100)
+                    raise _ProbeStop()
+                return orig.rename(self, a, b)
+        with wt.lock_tree_write():
+            tt = wt.transform()
+            try:
+                tt.set_executability(True, tt.trans_id_tree_path("a"))
+                tt.new_file("zz", tt.root, [b"zz\n"])
+                try:
+                    tt.apply(no_conflicts=True, _mover=M())
+                except _ProbeStop:
+                    pass
+            finally:
+                tt.finalize()
+        # (if the mode change is not made before the failing rename at all, the old
+        # mode is trivially "back": what counts is the state after the failed apply)
+        after = os.stat(os.path.join(root, "a")).st_mode & 0o100
+        shutil.rmtree(root, ignore_errors=True)
+        return after == 0
+    finally:
+        _plan = saved
+
+
 def extract(ctx):
     sys.path.insert(0, os.path.join(env.VERIF, "tools"))
     import extract as ex
-    bzr = source_order(os.path.join(env.REPO, "breezy/bzr/transform.py"), "apply_inventory_delta")
-    git = source_order(os.path.join(env.REPO, "breezy/git/transform.py"), "_apply_index_changes")
+    try:
+        bzr = source_order(os.path.join(env.REPO, "breezy/bzr/transform.py"), "apply_inventory_delta")
+        git = source_order(os.path.join(env.REPO, "breezy/git/transform.py"), "_apply_index_changes")
+    except ex.ExtractError as e:
+        # apply() no longer has the shape the model describes: a broken tie, reported by run()
+        ctx.extra["extract_failed"] = str(e)
+        raise
+    jb, jg = probe_chmod_journal("2a"), probe_chmod_journal("git")
+    lb = lambda b: "true" if b else "false"
     text = ("-- GENERATED by harness/checks/c13.py from breezy/bzr/transform.py and breezy/git/transform.py — do not edit\n"
             "import BreezyVerif.Model.C13\nnamespace BreezyVerif.C13\n"
             "/-- order of `mover.apply_deletions()` and the metadata update in `InventoryTreeTransform.apply` -/\n"
             "def applyOrderBzr : Order := .%s\n"
             "/-- the same in `GitTreeTransform.apply` -/\n"
-            "def applyOrderGit : Order := .%s\nend BreezyVerif.C13\n" % (bzr, git))
+            "def applyOrderGit : Order := .%s\n"
+            "/-- is the mode change of `_set_executability` undone by a failed `apply`? (probe of the real code, bzr trees) -/\n"
+            "def chmodJournalledBzr : Bool := %s\n"
+            "/-- the same for git trees -/\n"
+            "def chmodJournalledGit : Bool := %s\nend BreezyVerif.C13\n" % (bzr, git, lb(jb), lb(jg)))
     ex.write_if_changed(os.path.join(env.VERIF, "lean/BreezyVerif/Generated/C13.lean"), text)
     ctx.extra["source_order"] = dict(bzr=bzr, git=git)
-    return "apply order regenerated: bzr=%s git=%s" % (bzr, git)
+    ctx.extra["chmod_journalled"] = dict(bzr=jb, git=jg)
+    return "apply order regenerated: bzr=%s git=%s; mode change journalled: bzr=%s git=%s" % (bzr, git, jb, jg)
 
 
 def _order_flag(ctx, fmt):
@@ -540,35 +919,120 @@ def _order_flag(ctx, fmt):
     return "M" if so["git" if fmt == "git" else "bzr"] == "metadataFirst" else "D"
 
 
-def check_case(ctx, sc, ok_run, fault1, fault2, base_exc):
+def _jc_flag(ctx, fmt):
+    cj = ctx.extra.get("chmod_journalled")
+    if cj is None:
+        cj = ctx.extra["chmod_journalled"] = dict(bzr=probe_chmod_journal("2a"), git=probe_chmod_journal("git"))
+    return "T" if cj["git" if fmt == "git" else "bzr"] else "F"
+
+
+def model_line(ctx, fmt, before, ops, f1=None, f2=None, fu=None, fm=False):
+    t = lambda v: "~" if v is None else v
+    return "apply %s %s %s %s %s %s %s %s" % (_order_flag(ctx, fmt), _jc_flag(ctx, fmt), t(f1), t(f2), t(fu),
+                                              "T" if fm else "F", enc_fs(before or {}), enc_ops(ops))
+
+
+def impl_line(P, raised, md):
+    clobbered = [l for l in P.log if l[0] != "c" and l[4] is None and l[3]]
+    mode_changed = [l for l in P.log if l[0] == "c" and l[4] is None and l[3]]
+    return "%s %s %s %s %s %s" % (raised or "~", md, "F" if P.rollback_error is None else "T",
+                                  "F" if clobbered else "T", "F" if mode_changed else "T", canon_fs(P.after or {}))
+
+
+def exec_only_diff(before, after):
+    """the paths that differ, if the two snapshots differ in nothing but the
+    executable bit of regular files; else None"""
+    if set(before) != set(after):
+        return None
+    d = sorted(p for p in before if before[p] != after[p])
+    if d and all({before[p][0], after[p][0]} == {"f", "x"} and before[p][1] == after[p][1] for p in d):
+        return d
+    return None
+
+
+def restore_family(P, before, after):
+    """family slug of a 'not restored exactly' failure, from the concrete run:
+    the only differences are executable bits, and at least as many
+    _set_executability calls that changed a bit were executed before the fault"""
+    d = exec_only_diff(before, after)
+    changed = [l for l in P.log if l[0] == "c" and l[4] is None and l[3]]
+    if d and len(changed) >= len(d):
+        return "execbit-not-rolled-back"
+    return None
+
+
+def _diff(a, b):
+    return sorted(set(a.items()) ^ set(b.items()))[:4]
+
+
+def check_case(ctx, sc, ok_run, fault1, fault2, base_exc, fault_undo=None, fault_meta=False):
     """one (scenario, fault) case: real run, oracle, model line.  Returns (case, line, impl_out) or None."""
     ops = ops_of(ok_run["plan"].log)
-    res = run_command(sc, fault1, fault2, base_exc)
+    res = run_command(sc, fault1, fault2, base_exc, fault_undo=fault_undo, fault_meta=fault_meta)
     P = res["plan"]
-    case = dict(scenario=sc["seed"], fmt=sc["fmt"], backups=sc["backups"], fault1=fault1, fault2=fault2,
+    case = dict(scenario=sc["seed"], fmt=sc["fmt"], cmd=sc["cmd"], backups=sc["backups"], fault1=fault1, fault2=fault2,
                 base_exc=base_exc, ops=[list(o) for o in ops])
-    ctx.case(dict(ops=case["ops"], f1=fault1, f2=fault2, fmt=sc["fmt"], before=canon_fs(P.before or {})),
+    if fault_undo is not None:
+        case["fault_undo"] = fault_undo
+    if fault_meta:
+        case["fault_meta"] = True
+    ctx.case(dict(ops=case["ops"], f1=fault1, f2=fault2, fu=fault_undo, fm=fault_meta, fmt=sc["fmt"],
+                  before=canon_fs(P.before or {})),
              nontrivial=len(ops) >= 2)
     old_v, new_v = res["pre_versioned"], ok_run["post_versioned"]
     md = "old" if res["post_versioned"] == old_v else "new" if res["post_versioned"] == new_v else "mixed"
+    if (md == "mixed" and sc["cmd"] != "revert" and fault2 is not None and P.md_at_apply is not None
+            and P.md_at_apply == ok_run["plan"].md_at_apply):
+        # merge / update / unshelve go on after apply() (conflict records, parents): what they
+        # skip when apply() raises is not this property's business.  The metadata the
+        # transform itself wrote is the same as in the clean run, and it is not the old one.
+        md = "new"
     if old_v == new_v:
         md = "same"
     # ---- oracle --------------------------------------------------------
-    if fault1 is not None:
+    if fault_undo is not None:
+        # a second failure, inside rollback: outside the property; tie only
+        ctx.count("fault:mover+undo")
+        if P.rollback_error is not None:
+            ctx.count("rollback-failed")
+    elif fault_meta:
+        # a failure of the metadata update itself: outside the property's quantifier
+        # (not a rename, deletion or creation); compared with the model and recorded
+        ctx.count("fault:metadata")
+        if res["raised"] != "INJECTED":
+            ctx.violation(case, "fault in the metadata update did not propagate (raised=%r)" % (res["raised"],))
+        if P.where == "metadata" and md in ("old", "mixed") and res["post_visible"] != res["pre_visible"]:
+            ctx.count("observed:metadata-update-failure-leaves-new-files-with-%s-metadata" % md)
+    elif fault1 is not None:
         ctx.count("fault:mover")
+        if any(o[0] == "c" for o in ops[fault1:fault1 + 1]):
+            ctx.count("fault:at-set-executability")
         if res["raised"] != "INJECTED":
             ctx.violation(case, "fault at mover call %d did not propagate (raised=%r)" % (fault1, res["raised"]))
         if P.where != "rollback":
             ctx.violation(case, "fault at mover call %d: rollback was not run (stage=%r)" % (fault1, P.where))
         elif P.after != P.before:
-            diff = sorted(set(P.after.items()) ^ set(P.before.items()))[:4]
-            ctx.violation(case, "rollback did not restore the directory exactly after a fault at mover call %d: %r" % (fault1, diff))
-        if res["post_visible"] != res["pre_visible"]:
-            diff = sorted(set(res["post_visible"].items()) ^ set(res["pre_visible"].items()))[:4]
-            ctx.violation(case, "working tree files differ from the previous state after a failed apply: %r" % (diff,))
+            fam = restore_family(P, P.before, P.after)
+            d = exec_only_diff(P.before, P.after) or []
+            if fam and all(p.startswith(sc["ctl"] + "/limbo/") for p in d):
+                # a file that only ever lived in the limbo area (new content) went back
+                # there with its new mode: finalize discards it, nothing of the tree differs
+                ctx.count("limbo-only-mode-drift")
+            elif fam:
+                ctx.count("family:" + fam)
+                ctx.violation(case, "rollback after a fault at operation %d restored names and contents but not the "
+                                    "executable bit changed by _set_executability: %r" % (fault1, _diff(P.after, P.before)),
+                              family=fam)
+            else:
+                ctx.violation(case, "rollback did not restore the directory exactly after a fault at mover call %d: %r"
+                              % (fault1, _diff(P.after, P.before)))
+        if res["post_visible"] != res["pre_visible"] and not (
+                P.where == "rollback" and restore_family(P, res["pre_visible"], res["post_visible"])):
+            ctx.violation(case, "working tree files differ from the previous state after a failed apply: %r"
+                          % (_diff(res["post_visible"], res["pre_visible"]),))
         if md not in ("old", "same"):
             ctx.violation(case, "versioned paths changed although the transform was rolled back (%s)" % md)
-        bad = disk_agrees(res["root"], res["post_versioned"])
+        bad = [b for b in disk_agrees(res["root"], res["post_versioned"]) if b not in ok_run["bad_pre"]]
         if bad:
             ctx.violation(case, "metadata disagrees with disk after rollback: %s" % bad[:3])
     elif fault2 is not None:
@@ -576,40 +1040,131 @@ def check_case(ctx, sc, ok_run, fault1, fault2, base_exc):
         if res["raised"] != "INJECTED":
             ctx.violation(case, "fault at deletion %d did not propagate (raised=%r)" % (fault2, res["raised"]))
         if res["post_visible"] != ok_run["post_visible"]:
-            diff = sorted(set(res["post_visible"].items()) ^ set(ok_run["post_visible"].items()))[:4]
-            ctx.violation(case, "failure while discarding replaced content: files are not in the transformed state: %r" % (diff,))
+            ctx.violation(case, "failure while discarding replaced content: files are not in the transformed state: %r"
+                          % (_diff(res["post_visible"], ok_run["post_visible"]),))
         if md not in ("new", "same"):
             ctx.violation(case, "failure while discarding replaced content leaves the metadata describing the %s layout "
                                 "(files are in the new layout)" % md)
-        bad = disk_agrees(res["root"], res["post_versioned"])
+        bad = [b for b in disk_agrees(res["root"], res["post_versioned"]) if b not in ok_run["bad_post"]]
         if bad:
             ctx.violation(case, "metadata disagrees with disk after a failed deletion: %s" % bad[:3])
-    clobbered = [l for l in P.log if l[4] is None and l[3]]
-    if clobbered:
+    if [l for l in P.log if l[0] != "c" and l[4] is None and l[3]]:
         ctx.count("clobbering-rename")
+    if P.unmodelled:
+        ctx.count("chmod-on-non-file")
     # ---- model line ------------------------------------------------------
-    order = _order_flag(ctx, sc["fmt"])
-    line = "apply %s %s %s %s %s" % (order, "~" if fault1 is None else fault1, "~" if fault2 is None else fault2,
-                                     enc_fs(P.before or {}), enc_ops(ops))
-    impl_md = "old" if md in ("old",) else "new" if md == "new" else ("old" if fault1 is not None else "new") if md == "same" else md
-    impl = "%s %s %s %s %s" % (res["raised"] or "~", impl_md, "F" if P.rollback_error is None else "T",
-                               "F" if clobbered else "T", canon_fs(P.after or {}))
+    line = model_line(ctx, sc["fmt"], P.before, ops, fault1, fault2, fault_undo, fault_meta)
+    rolled = fault1 is not None or fault_meta
+    impl_md = "old" if md == "old" else "new" if md == "new" else ("old" if rolled else "new") if md == "same" else md
+    impl = impl_line(P, res["raised"], impl_md)
     shutil.rmtree(res["root"], ignore_errors=True)
     return case, line, impl
+
+
+def check_sabotage(ctx, sc, ok_run, kind, rel):
+    """the directory is changed behind the transform's back just before the first
+    mover call: the real os.rename calls now fail (or silently clobber) on their
+    own.  Compared with the model from the changed state; when the transform
+    fails and nothing was clobbered the rollback must restore that state."""
+    res = run_command(sc, sabotage=(kind, rel))
+    P = res["plan"]
+    if P.sabotaged != "done" or P.before is None or P.movers != 1:
+        ctx.count("sabotage-skipped")
+        shutil.rmtree(res["root"], ignore_errors=True)
+        return None
+    ops = ops_of(P.log)
+    case = dict(scenario=sc["seed"], fmt=sc["fmt"], cmd=sc["cmd"], sabotage=[kind, rel], fault1=None, fault2=None,
+                ops=[list(o) for o in ops])
+    ctx.case(dict(ops=case["ops"], sabotage=[kind, rel], fmt=sc["fmt"], before=canon_fs(P.before)),
+             nontrivial=len(ops) >= 1)
+    ctx.count("sabotage:" + kind)
+    errs = [l[4] for l in P.log if l[4] and not (l[0] == "r" and l[4].endswith(":ENOENT"))]
+    swallowed = [l for l in P.log if l[4] and l[0] == "r" and l[4].endswith(":ENOENT")]
+    clob = [l for l in P.log if l[0] != "c" and l[4] is None and l[3]]
+    if swallowed:
+        ctx.count("enoent-swallowed")
+    if clob:
+        ctx.count("clobbering-rename")
+    if P.where == "rollback":
+        raised = errs[-1].split(":")[1] if errs else "?"
+        ctx.count("natural-failure:" + raised)
+        if P.rollback_error is not None:
+            ctx.count("rollback-failed")
+        elif not clob and P.after != P.before and all(
+                p.startswith(sc["ctl"] + "/limbo/") for p in (exec_only_diff(P.before, P.after) or ["-"])):
+            ctx.count("limbo-only-mode-drift")
+        elif not clob and P.after != P.before:
+            fam = restore_family(P, P.before, P.after)
+            ctx.violation(case, "the transform failed with %s (directory changed behind its back: %s %s), no rename "
+                                "clobbered anything, and rollback did not restore the directory: %r"
+                          % (raised, kind, rel, _diff(P.after, P.before)), family=fam)
+        md = "old"
+    elif P.where == "deletion":
+        # a delete_any failed by itself (rmdir of a directory that got an unexpected child)
+        raised = P.del_error or "?"
+        ctx.count("natural-deletion-failure:" + raised)
+        md = "new"
+    elif P.where == "done":
+        raised = None
+        md = "new"
+    else:
+        # failed before or after the mover phases (not this property's mechanism)
+        ctx.count("sabotage-other-stage:%s" % P.where)
+        shutil.rmtree(res["root"], ignore_errors=True)
+        return None
+    line = model_line(ctx, sc["fmt"], P.before, ops)
+    impl = impl_line(P, raised, md)
+    shutil.rmtree(res["root"], ignore_errors=True)
+    return case, line, impl
+
+
+def sabotage_candidates(ok_run):
+    """{class: [(kind, relpath)]} aimed at the operations of the clean run; class =
+    rm-p (source of a pre_delete removed: ENOENT must propagate), rm-r (source of
+    a plain rename removed: ENOENT is swallowed), and the obstacle kinds"""
+    P = ok_run["plan"]
+    before = P.before or {}
+    ctl_top = P.ctl.split("/")[0]
+    out = {}
+    for k, a, b in ops_of(P.log):
+        if k == "c":
+            continue
+        if a in before:
+            out.setdefault("rm-" + k, set()).add(("rm", a))
+        par = os.path.dirname(b) or "."
+        if b not in before and before.get(par, ("?",))[0] == "d":
+            for kind in ("file", "dir", "fulldir"):
+                out.setdefault(kind, set()).add((kind, b))
+            if par != "." and not par.startswith(ctl_top):
+                out.setdefault("parentfile", set()).add(("parentfile", b))
+    return {c: sorted(v) for c, v in out.items()}
+
+
+def pick_sabotage(ctx, cands):
+    """quick: one of every removal class and of `parentfile`, one random obstacle;
+    thorough: up to three of every class"""
+    picks = []
+    per = ctx.pick(1, 3)
+    for c in ("rm-p", "rm-r", "parentfile"):
+        if c in cands:
+            picks += ctx.rng.sample(cands[c], min(per, len(cands[c])))
+    obstacles = [c for c in ("file", "dir", "fulldir") if c in cands]
+    for c in (obstacles if ctx.thorough() else ctx.rng.sample(obstacles, min(1, len(obstacles)))):
+        picks += ctx.rng.sample(cands[c], min(per, len(cands[c])))
+    return picks
 
 
 def check_creation_fault(ctx, sc, k, after, base_exc):
     """fault at the k-th content creation while the transform is being built:
     nothing may change (finalize discards the limbo area)"""
     res = run_command(sc, base_exc=base_exc, fault3=k, after3=after)
-    case = dict(scenario=sc["seed"], fmt=sc["fmt"], fault3=k, after3=after, base_exc=base_exc)
+    case = dict(scenario=sc["seed"], fmt=sc["fmt"], cmd=sc["cmd"], fault3=k, after3=after, base_exc=base_exc)
     ctx.case(dict(case, pre=canon_fs(res["pre_visible"])))
     ctx.count("fault:creation")
     if res["raised"] != "INJECTED":
         ctx.violation(case, "fault at content creation %d did not propagate (raised=%r)" % (k, res["raised"]))
     if res["post_visible"] != res["pre_visible"]:
-        diff = sorted(set(res["post_visible"].items()) ^ set(res["pre_visible"].items()))[:4]
-        ctx.violation(case, "a failed content creation left the tree changed: %r" % (diff,))
+        ctx.violation(case, "a failed content creation left the tree changed: %r" % (_diff(res["post_visible"], res["pre_visible"]),))
     if res["post_versioned"] != res["pre_versioned"]:
         ctx.violation(case, "a failed content creation left the versioned paths changed")
     left = [p for p in res["post"] if p.startswith(sc["ctl"] + "/limbo") or p.startswith(sc["ctl"] + "/pending-deletion")]
@@ -618,100 +1173,290 @@ def check_creation_fault(ctx, sc, k, after, base_exc):
     shutil.rmtree(res["root"], ignore_errors=True)
 
 
+# --------------------------------------------------------------------------
+# differential streams for the file-system model itself
+
+_SNAMES = ["a", "b", "c"]
+
+
+def _small_fs(rng, root):
+    """random small directory (files with/without the executable bit, directories,
+    dangling symlinks); returns the list of relative paths created"""
+    made = []
+
+    def fill(prefix, depth):
+        for name in rng.sample(_SNAMES, rng.randint(0 if depth else 1, 3)):
+            rel = prefix + name
+            full = os.path.join(root, rel)
+            r = rng.random()
+            if r < 0.4 and depth < 2:
+                os.mkdir(full)
+                made.append(rel)
+                fill(rel + "/", depth + 1)
+            elif r < 0.5:
+                os.symlink("nowhere%d" % rng.randint(0, 1), full)
+                made.append(rel)
+            else:
+                with open(full, "w") as f:
+                    f.write("%d" % rng.randint(0, 2))
+                os.chmod(full, 0o755 if rng.random() < 0.4 else 0o644)
+                made.append(rel)
+    fill("", 0)
+    return made
+
+
+def _rand_path(rng, made, dirs):
+    r = rng.random()
+    if made and r < 0.55:
+        return rng.choice(made)
+    if dirs and r < 0.8:
+        return rng.choice(dirs) + "/" + rng.choice(_SNAMES)
+    if made and r < 0.87:
+        return rng.choice(made) + "/" + rng.choice(_SNAMES)
+    if made and r < 0.9:
+        return rng.choice(made) + "/" + rng.choice(_SNAMES) + "/" + rng.choice(_SNAMES)
+    return rng.choice(_SNAMES + ["n"])
+
+
+def _errno_name(e):
+    en = getattr(e, "errno", None)
+    if en is None:
+        # an OSError raised by the Rust extension carries the number in its text only
+        import re
+        m = re.search(r"os error (\d+)", str(e))
+        en = int(m.group(1)) if m else None
+    return errno.errorcode.get(en, type(e).__name__)
+
+
+def fs_streams(ctx, n):
+    """model `rename` against the real os.rename, and model `chmod` against the
+    real _set_executability, on random small directories: every errno branch,
+    silent replacement, directory-over-empty-directory, self rename"""
+    import breezy.bzr.transform as bbt
+
+    class FakeTree:
+        def __init__(self, root):
+            self.root = root
+
+        def _supports_executable(self):
+            return True
+
+        def abspath(self, p):
+            return os.path.join(self.root, p)
+
+    class FakeTT:
+        pass
+    cases, lines, impls = [], [], []
+    base = env.fresh_dir("c13fs")
+    for i in range(n):
+        root = os.path.join(base, "t%d" % i)
+        os.mkdir(root)
+        made = _small_fs(ctx.rng, root)
+        before = snapshot(root, None)
+        dirs = [p for p in made if before[p][0] == "d"]
+        if ctx.rng.random() < 0.8:
+            a, b = _rand_path(ctx.rng, made, dirs), _rand_path(ctx.rng, made, dirs)
+            case = dict(stream="rename", fs=canon_fs(before), a=a, b=b)
+            try:
+                os.rename(os.path.join(root, a), os.path.join(root, b))
+                out = "ok " + canon_fs(snapshot(root, None))
+                ctx.count("rename:ok" + (":replaced" if b in before and a != b else ""))
+            except OSError as e:
+                out = "E:" + _errno_name(e)
+                ctx.count("rename:" + out)
+                if snapshot(root, None) != before:
+                    ctx.violation(case, "os.rename failed with %s and changed the directory" % out)
+            line = "rename %s %s %s" % (enc_fs(before), _enc_path(a), _enc_path(b))
+        else:
+            regular = [p for p in made if before[p][0] in "fx"]
+            p = ctx.rng.choice(regular) if regular and ctx.rng.random() < 0.7 else _rand_path(ctx.rng, made, dirs)
+            if before.get(p, ("?",))[0] in "dl":
+                shutil.rmtree(root, ignore_errors=True)
+                continue
+            x = ctx.rng.random() < 0.5
+            case = dict(stream="chmod", fs=canon_fs(before), p=p, x=x)
+            tt = FakeTT()
+            tt._tree = FakeTree(root)
+            tt._new_executability = {"t": x}
+            try:
+                bbt.DiskTreeTransform._set_executability(tt, p, "t")
+                out = "ok %s %s" % ("T" if before[p][0] == "x" else "F", canon_fs(snapshot(root, None)))
+                ctx.count("chmod:ok")
+            except OSError as e:
+                out = "E:" + _errno_name(e)
+                ctx.count("chmod:" + out)
+            line = "chmod %s %s %s" % (enc_fs(before), _enc_path(p), "T" if x else "F")
+        ctx.case(case)
+        cases.append(case); lines.append(line); impls.append(out)
+        shutil.rmtree(root, ignore_errors=True)
+    shutil.rmtree(base, ignore_errors=True)
+    if lines:
+        ctx.diff(cases, lines, impls)
+
+
+# --------------------------------------------------------------------------
+
 def _scenarios(ctx, n):
     fmts = ["2a", "git"]
-    out = []
+    # half the scenarios are reverts; the others drive the same mechanism
+    # through merge (conflict files), update, shelve and unshelve
+    cmds = ["revert", "revert", "merge", "revert", "revert", "unshelve", "revert", "revert", "shelve",
+            "revert", "merge", "update"]
+    for name in sorted(HAND):
+        for fmt in fmts:
+            yield build_scenario(("hand", fmt, name, "revert"))
     i = 0
-    while len(out) < n and i < n * 6:
-        seed_tuple = (ctx.seed, fmts[i % 2], i)
+    made = 0
+    while made < n and i < n * 6:
+        cmd = cmds[(i // 2) % len(cmds)]
+        # git working trees do not support shelving
+        seed_tuple = (ctx.seed, "2a" if cmd in ("shelve", "unshelve") else fmts[i % 2], i, cmd)
         i += 1
         try:
             sc = build_scenario(seed_tuple)
         except Exception as e:
-            ctx.count("scenario-build-failed:" + type(e).__name__)
+            ctx.count("scenario-build-failed:%s:%s" % (seed_tuple[3], type(e).__name__))
             continue
-        out.append(sc)
-    return out
+        made += 1
+        yield sc
+
+
+def _cleanup(sc, *runs):
+    for r in runs:
+        shutil.rmtree(r["root"], ignore_errors=True)
+    shutil.rmtree(sc["base"], ignore_errors=True)
+    if sc.get("other"):
+        shutil.rmtree(sc["other"], ignore_errors=True)
 
 
 def run(ctx, nscen=None, maxfaults=None):
     _install()
-    nscen = nscen or ctx.pick(50, 400)
-    maxfaults = maxfaults or ctx.pick(40, 200)
+    if ctx.extra.get("extract_failed") and not ctx.extra.get("extract_failed_reported"):
+        ctx.extra["extract_failed_reported"] = True
+        ctx.mismatch(dict(t1="shape of apply()"), impl=ctx.extra["extract_failed"],
+                     model="try: removals; insertions / except BaseException: rollback; raise, then the metadata "
+                           "update and apply_deletions as unconditional statements", tie="T1")
+    for f in sorted(os.listdir(os.path.join(env.VERIF, "corpus", "C13"))) if os.path.isdir(os.path.join(env.VERIF, "corpus", "C13")) else []:
+        import json
+        rec = json.load(open(os.path.join(env.VERIF, "corpus", "C13", f)))
+        ctx.count("corpus")
+        _replay_case(ctx, rec["case"] if "case" in rec else rec, tie=True)
+    fs_streams(ctx, ctx.pick(200, 2500))
+    nscen = nscen or ctx.pick(24, 150)
+    maxfaults = maxfaults or ctx.pick(30, 200)
     cases, lines, impls = [], [], []
+
+    def keep(r):
+        if r:
+            cases.append(r[0]); lines.append(r[1]); impls.append(r[2])
     for sc in _scenarios(ctx, nscen):
         ok = run_command(sc)
         P = ok["plan"]
+        ctx.count("cmd:%s:%s" % (sc["cmd"], sc["fmt"]))
         if ok["raised"] is not None:
             # the transform failed by itself (a real OS error or a failure while it
             # was being prepared): the tree must be exactly as before
-            ctx.count("natural-failure:" + str(ok["raised"]))
+            ctx.count("natural-failure:%s:%s" % (sc["cmd"], ok["raised"]))
             case = dict(scenario=sc["seed"], fault1=None, fault2=None, natural=ok["raised"])
-            if ok["post_visible"] != ok["pre_visible"]:
-                diff = sorted(set(ok["post_visible"].items()) ^ set(ok["pre_visible"].items()))[:4]
-                ctx.violation(case, "transform failed with %s and left the tree changed: %r" % (ok["raised"], diff))
-            if ok["post_versioned"] != ok["pre_versioned"]:
-                ctx.violation(case, "transform failed with %s and left the versioned paths changed" % ok["raised"])
+            if sc["cmd"] == "revert":
+                if ok["post_visible"] != ok["pre_visible"]:
+                    ctx.violation(case, "transform failed with %s and left the tree changed: %r"
+                                  % (ok["raised"], _diff(ok["post_visible"], ok["pre_visible"])))
+                if ok["post_versioned"] != ok["pre_versioned"]:
+                    ctx.violation(case, "transform failed with %s and left the versioned paths changed" % ok["raised"])
             if P.before is not None and P.where == "rollback":
                 if P.after != P.before:
-                    ctx.violation(case, "rollback after %s did not restore the directory exactly" % ok["raised"])
+                    ctx.violation(case, "rollback after %s did not restore the directory exactly" % ok["raised"],
+                                  family=restore_family(P, P.before, P.after))
                 ops = ops_of(P.log)
                 errs = [l[4] for l in P.log if l[4] and not (l[0] == "r" and l[4].endswith(":ENOENT"))]
-                clob = [l for l in P.log if l[4] is None and l[3]]
                 cases.append(case)
-                lines.append("apply %s ~ ~ %s %s" % (_order_flag(ctx, sc["fmt"]), enc_fs(P.before), enc_ops(ops)))
-                impls.append("%s old F %s %s" % (errs[-1].split(":")[1] if errs else "?", "F" if clob else "T", canon_fs(P.after)))
+                lines.append(model_line(ctx, sc["fmt"], P.before, ops))
+                impls.append(impl_line(P, errs[-1].split(":")[1] if errs else "?", "old"))
                 ctx.case(dict(ops=[list(o) for o in ops], natural=ok["raised"], before=canon_fs(P.before)))
-            shutil.rmtree(ok["root"], ignore_errors=True)
-            shutil.rmtree(sc["base"], ignore_errors=True)
+            _cleanup(sc, ok)
             continue
         n, nd = P.n, P.ndel
         ctx.count("mover-calls:%d" % min(n, 12))
         ctx.count("deletions:%d" % min(nd, 6))
+        ctx.count("set-executability-calls:%d" % min(len([l for l in P.log if l[0] == "c"]), 4))
         if P.movers != 1:
-            ctx.count("movers!=1")
-            shutil.rmtree(ok["root"], ignore_errors=True)
+            ctx.count("movers!=1:%s:%d" % (sc["cmd"], P.movers))
+            _cleanup(sc, ok)
             continue
         # success case against the model
         ops = ops_of(P.log)
-        order = _order_flag(ctx, sc["fmt"])
         cases.append(dict(scenario=sc["seed"], fault1=None, fault2=None))
-        lines.append("apply %s ~ ~ %s %s" % (order, enc_fs(P.before or {}), enc_ops(ops)))
-        clob = [l for l in P.log if l[4] is None and l[3]]
-        impls.append("~ new F %s %s" % ("F" if clob else "T", canon_fs(P.after or {})))
+        lines.append(model_line(ctx, sc["fmt"], P.before, ops))
+        impls.append(impl_line(P, None, "new"))
         ctx.case(dict(ops=[list(o) for o in ops], f1=None, f2=None, fmt=sc["fmt"], before=canon_fs(P.before or {})),
                  nontrivial=len(ops) >= 2)
-        bad = disk_agrees(ok["root"], ok["post_versioned"])
-        if bad:
-            ctx.violation(dict(scenario=sc["seed"]), "metadata disagrees with disk after a successful apply: %s" % bad[:3])
+        # paths that are versioned but not on disk: the state before the command may
+        # have some (a locally deleted file), and a merge leaves some on purpose (the
+        # path of a contents conflict in a git tree); a fault must not add any
+        ok["bad_post"] = disk_agrees(ok["root"], ok["post_versioned"])
+        if ok["bad_post"] and sc["cmd"] == "revert":
+            ctx.violation(dict(scenario=sc["seed"]), "metadata disagrees with disk after a successful revert: %s" % ok["bad_post"][:3])
         faults = [(k, None) for k in range(n)] + [(None, j) for j in range(nd)]
         if len(faults) > maxfaults:
             faults = ctx.rng.sample(faults, maxfaults)
         for f1, f2 in faults:
             mode = ctx.rng.choice([False, True, "os", "os"]) if f1 is not None else (ctx.rng.random() < 0.5)
-            r = check_case(ctx, sc, ok, f1, f2, base_exc=mode)
-            if r:
-                cases.append(r[0]); lines.append(r[1]); impls.append(r[2])
+            keep(check_case(ctx, sc, ok, f1, f2, base_exc=mode))
+        # a second fault inside rollback, a fault in the metadata update
+        for _ in range(min(ctx.pick(1, 6), max(n - 1, 0))):
+            k = ctx.rng.randrange(1, n)
+            keep(check_case(ctx, sc, ok, k, None, base_exc=ctx.rng.choice([False, "os"]),
+                            fault_undo=ctx.rng.randrange(0, k)))
+        if n and ctx.rng.random() < ctx.pick(0.5, 1.0):
+            keep(check_case(ctx, sc, ok, None, None, base_exc=False, fault_meta=True))
+        # the directory changes behind the transform's back
+        for kind, rel in pick_sabotage(ctx, sabotage_candidates(ok)):
+            keep(check_sabotage(ctx, sc, ok, kind, rel))
         ctx.count("creations:%d" % min(P.ncreate, 8))
-        for k in range(min(P.ncreate, ctx.pick(6, 40))):
+        for k in range(min(P.ncreate, ctx.pick(4, 40))):
             check_creation_fault(ctx, sc, k, after=ctx.rng.random() < 0.5, base_exc=ctx.rng.random() < 0.5)
-        shutil.rmtree(ok["root"], ignore_errors=True)
-        shutil.rmtree(sc["base"], ignore_errors=True)
+        _cleanup(sc, ok)
     if lines:
         ctx.diff(cases, lines, impls)
+    import collections
+    ctx.extra["violation_families"] = dict(collections.Counter(str(v["family"]) for v in ctx.violations))
+    if ctx.extra.get("chmod_journalled"):
+        cj = ctx.extra["chmod_journalled"]
+        ctx.extra["applicable_theorem"] = {
+            k: ("rollback_restores (exact, executable bits included)" if v else
+                "rollback_restores_modulo_exec + execbit_witness (mode change not journalled)") for k, v in cj.items()}
 
 
 def widen(ctx):
     run(ctx, nscen=60, maxfaults=200)
 
 
-def replay(ctx, case):
-    _install()
+def _replay_case(ctx, case, tie=False):
     sc = build_scenario(tuple(case["scenario"]))
     ok = run_command(sc)
-    if case.get("fault3") is not None:
-        check_creation_fault(ctx, sc, case["fault3"], case.get("after3", False), case.get("base_exc", False))
-        return dict(case=case, oracle_failures=[v["what"] for v in ctx.violations])
-    r = check_case(ctx, sc, ok, case.get("fault1"), case.get("fault2"), case.get("base_exc", False))
-    m = ctx.model([r[1]])[0]
-    return dict(case=r[0], impl=r[2], model=m, agree=(m == r[2]), oracle_failures=[v["what"] for v in ctx.violations])
+    try:
+        if case.get("fault3") is not None:
+            check_creation_fault(ctx, sc, case["fault3"], case.get("after3", False), case.get("base_exc", False))
+            return dict(case=case, oracle_failures=[v["what"] for v in ctx.violations])
+        if case.get("sabotage"):
+            r = check_sabotage(ctx, sc, ok, *case["sabotage"])
+        else:
+            r = check_case(ctx, sc, ok, case.get("fault1"), case.get("fault2"), case.get("base_exc", False),
+                           fault_undo=case.get("fault_undo"), fault_meta=case.get("fault_meta", False))
+        if r is None:
+            return dict(case=case, oracle_failures=[v["what"] for v in ctx.violations])
+        if tie:
+            ctx.diff([r[0]], [r[1]], [r[2]])
+            return None
+        m = ctx.model([r[1]])[0]
+        return dict(case=r[0], impl=r[2], model=m, agree=(m == r[2]), oracle_failures=[v["what"] for v in ctx.violations])
+    finally:
+        _cleanup(sc, ok)
+
+
+def replay(ctx, case):
+    _install()
+    if case.get("stream"):
+        return dict(case=case, note="file-system stream case: re-run the check with the same VERIF_SEED")
+    return _replay_case(ctx, case)
